@@ -1,4 +1,5 @@
 import TantivyModel.Proofs.WriterHistory
+import TantivyModel.Proofs.WriterMergeMeta
 /-!
 # C02 — A commit publishes exactly the sequential effect of the operations before it
 
@@ -237,6 +238,71 @@ theorem C02_extracted_guards :
 /-- with `<=` in the catch-up guard a delete stamped exactly with the commit opstamp is applied to
 the merged segment (what the seeded change C02-C does), with `<` it is not -/
 example : cmpCode 1 5 5 = true ∧ cmpCode Gen.END_MERGE_CATCHUP_CMP 5 5 = false := by decide
+
+/-! ## `advance_deletes` with its bookkeeping (`delete_opstamp`, "already up to date") -/
+
+/-- **C02_advanceDeletes_early_return_only.**  `advance_deletes(segment, entry, target)` as it is
+(`advanceDeletes`: early return when the segment's delete file was written for this very target,
+new delete file when more documents are deleted than the meta records) differs from its core
+(`advance`: `compute_deleted_bitset` from the cursor) by nothing but the early return: if
+`delete_opstamp ≠ target` both leave the same documents, alive bits and cursor; if
+`delete_opstamp = target` nothing at all happens (the cursor stays). -/
+theorem C02_advanceDeletes_early_return_only [DecidableEq α] (log : List (DelOp α)) (t : Nat) (sg : Seg α) :
+    (sg.delOp ≠ some t → sameCore (advanceDeletes log t sg) (advance log t sg))
+    ∧ (sg.delOp = some t → advanceDeletes log t sg = sg) :=
+  ⟨advanceDeletes_core log t sg, advanceDeletes_skip log t sg⟩
+
+/-- **C02_mergeSegsD_committed.**  On the states the refinement invariant allows - every source of
+a merge of committed segments sits exactly at the last commit `B` (`CommittedAt`, part of
+`C02_cursor_discipline_invariant`) - `merge` with the real `advance_deletes` (early return
+included, whatever the `delete_opstamp`s of the sources) produces exactly the merged segment of
+the model's `mergeSegs`: the bookkeeping is invisible, which is why the state machine may use the
+core.  (Without that hypothesis it is not: `C02_merge_counterexample_reopen_lost`.) -/
+theorem C02_mergeSegsD_committed [DecidableEq α] (log : List (DelOp α)) (B newId : Nat) (srcs : List (Seg α))
+    (h : ∀ sg ∈ srcs, CommittedAt log B sg) :
+    mergeSegsD log B newId srcs = mergeSegs log B newId srcs := by
+  apply mergeSegsD_eq_of_fields
+  intro sg hsg
+  have a := advanceDeletes_committedAt log B sg (h sg hsg)
+  rw [advance_committedAt log B sg (h sg hsg)]
+  exact a
+
+/-- the same for sources none of which carries `delete_opstamp = target` (every merge of
+uncommitted segments: their target is a fresh stamp) -/
+theorem C02_mergeSegsD_fresh_target [DecidableEq α] (log : List (DelOp α)) (t newId : Nat) (srcs : List (Seg α))
+    (h : ∀ sg ∈ srcs, sg.delOp ≠ some t) :
+    mergeSegsD log t newId srcs = mergeSegs log t newId srcs := by
+  apply mergeSegsD_eq_of_fields
+  intro sg hsg
+  obtain ⟨_, h2, h3⟩ := advanceDeletes_core log t sg (h sg hsg)
+  exact ⟨h2, h3⟩
+
+/-- F8, second manifestation (found by this check, reproduced on the real code): the last commit
+(opstamp 5) deleted document 3 in segment B (`delete_opstamp = 5`); the writer is re-created and its
+first operation, stamped 5 as well, deletes document 4 of B; a merge of A and B with target 5
+advances A past that delete, SKIPS B ("already up to date") and gives the merged segment A's
+cursor: document 4 is alive in the merged segment and the delete is behind its cursor - lost for
+good.  (The core `mergeSegs` would instead remove 4 at once: the first manifestation.) -/
+theorem C02_merge_counterexample_reopen_lost :
+    let log : List (DelOp Nat) := [⟨5, fun d => d == 4⟩]
+    let a : Seg Nat := { id := 0, docs := [⟨1, 1, true⟩, ⟨2, 2, true⟩], cursor := 0 }
+    let b : Seg Nat := { id := 1, docs := [⟨3, 3, false⟩, ⟨4, 4, true⟩], cursor := 0, delOp := some 5, metaDead := 1 }
+    mergeCommitted Gen.END_MERGE_CATCHUP_CMP log 5 [a, b] = some ([1, 2, 4], 1)
+      ∧ (mergeSegs log 5 0 [a, b]).map (fun M => (aliveDocs M, M.cursor)) = some ([1, 2], 1) := by
+  decide
+
+/-- the corner next to it where the code is right, and what the seeded change C02-C breaks: both
+sources carry `delete_opstamp = 5`, so `merge` applies nothing and the merged segment keeps the
+cursor before the delete; with the extracted catch-up guard (`<`) `end_merge` leaves it alone -
+document 4 stays published until a commit; with `<=` (code 1) `end_merge` applies the uncommitted
+delete and publishes it. -/
+theorem C02_catchup_guard_le_counterexample :
+    let log : List (DelOp Nat) := [⟨5, fun d => d == 4⟩]
+    let a : Seg Nat := { id := 0, docs := [⟨1, 1, false⟩, ⟨2, 2, true⟩], cursor := 0, delOp := some 5, metaDead := 1 }
+    let b : Seg Nat := { id := 1, docs := [⟨3, 3, false⟩, ⟨4, 4, true⟩], cursor := 0, delOp := some 5, metaDead := 1 }
+    mergeCommitted Gen.END_MERGE_CATCHUP_CMP log 5 [a, b] = some ([2, 4], 0)
+      ∧ mergeCommitted 1 log 5 [a, b] = some ([2], 1) := by
+  decide
 
 /-! ## the delete-cursor discipline, for every segment and every merged entry -/
 
@@ -546,6 +612,10 @@ example :
         let s2 ← run s1 [.recv 0, .tick, .cut 0, .register, .add 2, .recv 1, .cut 1, .register, .mergeStart [0, 1] true]
         let (_, r2) ← step s2 (.commit none)
         pure (r1, r2)) = some (0, 4) := by decide
+-- `CommittedAt` is satisfiable with a delete on each side of the cursor and a delete_opstamp
+example : CommittedAt ([⟨3, fun _ => true⟩, ⟨9, fun _ => false⟩] : List (DelOp Nat)) 5
+    ({ id := 0, docs := [⟨1, 1, false⟩], cursor := 1, delOp := some 5, metaDead := 1 } : Seg Nat) := by
+  constructor <;> intro del hd <;> simp at hd <;> subst hd <;> decide
 example : cleanState (WState.init 2 : WState Nat) := by
   refine ⟨rfl, rfl, rfl, rfl, ?_⟩
   intro w hw
@@ -556,6 +626,6 @@ example : cleanFrom (CState.init : CState Nat) [some (.add 1), some (.commit non
 example : processed 5 [⟨3, fun d => d == (1 : Nat)⟩, ⟨5, fun _ => true⟩, ⟨6, fun _ => true⟩] ≠ [] := by
   simp [processed]
 example : ∃ s : WState Nat, s.metas.segs ≠ [] ∧ s.channel ≠ [] :=
-  ⟨{ WState.init 1 with channel := [[(1, 0)]], metas := ⟨0, none, [⟨0, [⟨1, 0, true⟩], 0⟩]⟩ }, by simp, by simp⟩
+  ⟨{ WState.init 1 with channel := [[(1, 0)]], metas := ⟨0, none, [{ id := 0, docs := [⟨1, 0, true⟩], cursor := 0 }]⟩ }, by simp, by simp⟩
 
 end TantivyModel.C02
